@@ -13,6 +13,35 @@ NOTE_R = ("Mode R = IEEE specials over exact reals (no rounding/overflow/signed 
           "with instance axioms. Trusted: z3, the shim's model of NumPy element semantics, the oracles in /verif/spec and the harness. ")
 
 CHECKS = {
+    "C03": dict(
+        text="Bounded symbolic verification: Term.membership of each of the 20 shape terms and Constant is executed with symbolic x, "
+             "parameters and height. Over exact reals with IEEE specials every obligation (equals the transcribed definition x height, "
+             "range [0,h], NaN iff x NaN, limits at +-inf, monotonicity of is_monotonic() terms, array = elementwise) is one SMT query "
+             "per path covering all valid parameterisations and all x; in IEEE binary64 (np.where forked) the value at every documented "
+             "breakpoint is decided bit-exactly (0 or h, never NaN inside the support). Tests only sample about ten points per term.",
+        note=NOTE_R + "Mode F: relaxed multiplication/division/sqrt are sound over-approximations (unsat carries over, sat is replayed); "
+             "magnitudes bounded as stated in the evidence; libm accuracy outside.",
+        ref="DESIGN.md §2 C03"),
+    "C05": dict(
+        text="Bounded symbolic verification: each of the 6 registered hedges is executed on a symbolic degree; formula, range, fixed "
+             "points, monotonicity, very<=x<=somewhat, inverse pairs and involution are SMT queries over all reals in [0,1]; the 0.5 "
+             "branch of extremely/seldom is decided bit-exactly over all doubles.",
+        note=NOTE_R + "Inverse/involution laws are real-arithmetic claims (false by rounding in floats).",
+        ref="DESIGN.md §2 C05"),
+    "C09": dict(
+        text="Bounded symbolic verification: the fuzzy set is an abstract term returning r fresh symbolic memberships (the property's "
+             "own quantifier); the real Centroid/Bisector/SOM/MOM/LOM.defuzzify run on it with a symbolic range, and the defining "
+             "formulas, range, SOM<=MOM<=LOM, NaN-iff-empty, translation and batch=per-set are SMT queries over all memberships and "
+             "ranges for r up to the stated bound; Aggregated/Activated.membership is proven equal to the documented fold for every "
+             "implication x aggregation pair.",
+        note=NOTE_R + "Resolutions above the bound (incl. the default 1000) are outside the claim.",
+        ref="DESIGN.md §2 C09"),
+    "C11": dict(
+        text="Bounded symbolic verification: tsukamoto(y) of the six monotonic terms is executed with symbolic parameters, height and "
+             "y in (0,h); finiteness, membership(tsukamoto(y)) == y, monotonicity and elementwise arrays are SMT queries over all "
+             "reals; all other term classes must raise.",
+        note=NOTE_R + "exp/log are uninterpreted with mutual-inverse instance axioms; float closeness of the round trip is outside.",
+        ref="DESIGN.md §2 C11"),
     "C04": dict(
         text="Bounded symbolic verification: for each of the 7 T-norms and 9 S-norms the real compute() is executed on symbolic "
              "operands and the documented formula and every norm law of the statement is one SMT query over all reals in [0,1]; "
